@@ -4,6 +4,7 @@ import (
 	"context"
 	"io"
 	"math/rand/v2"
+	"sync"
 
 	"github.com/glebziz/fs_db/internal/model"
 )
@@ -46,7 +47,10 @@ type UseCase struct {
 	fRepo  fileRepository
 	txRepo txRepository
 
-	idGen   generator
+	idGen generator
+
+	// randM guards randGen: *rand.Rand is not safe for concurrent use.
+	randM   sync.Mutex
 	randGen *rand.Rand
 }
 
